@@ -122,7 +122,8 @@ def oracle(case, reply):
         kind = EQUIV.get(parts[0], parts[0])
         names = parts[1].split(",") if len(parts) > 1 else []
         for k, n in case["want_err"]:
-            if EQUIV.get(k, k) == kind and (n is None or n in names or not names):
+            # which macro of a cycle is named when the nesting limit is hit is an accident of where the count started
+            if EQUIV.get(k, k) == kind and (n is None or n in names or not names or kind.endswith("MacroRecursionLimit")):
                 return None
         return f"error `{reply}` does not match the fault(s) {case['want_err']} of {case.get('src', '')[:160]!r}"
     return None
